@@ -35,18 +35,24 @@ def sheets (args : List String) : String :=
     "ok " ++ " ".intercalate (go labels [])
   | none => "bad-op"
 
-/-- `wrapper load i | target | …` → results joined by ` ; `. -/
+/-- `wrapper load i m | load i f k | load i p | target | …` → results joined by ` ; `. -/
 def wrapper (args : List String) : String :=
   let ops := splitGroups args
+  let load (acc : Wrapper × List String) (i : String) (src : Option Src) : Wrapper × List String :=
+    match i.toNat?, src with
+    | some i, some s => ((wstep acc.1 (.load i s)).1, acc.2 ++ ["ok"])
+    | _, _ => (acc.1, acc.2 ++ ["bad-op"])
   let (_, outs) := ops.foldl (fun (acc : Wrapper × List String) g =>
     match g with
-    | ["load", i] =>
-      match i.toNat? with
-      | some i => ((wstep acc.1 (.load i)).1, acc.2 ++ ["ok"])
-      | none => (acc.1, acc.2 ++ ["bad-op"])
+    | ["load", i, "m"] => load acc i (some .model)
+    | ["load", i, "p"] => load acc i (some .pair)
+    | ["load", i, "f", k] => load acc i (k.toNat?.map .file)
     | ["target"] =>
       let (w', r) := wstep acc.1 .target
-      (w', acc.2 ++ [match r with | some k => s!"result {k}" | none => "err RuntimeError"])
+      (w', acc.2 ++ [match r with
+        | some (k, some n) => s!"result {k} {n}"
+        | some (k, none) => s!"result {k} U"
+        | none => "err RuntimeError"])
     | _ => (acc.1, acc.2 ++ ["bad-op"])) (({} : Wrapper), [])
   " ; ".intercalate outs
 
